@@ -439,5 +439,31 @@ PROPS["C18"] = {
                   "uom's own arithmetic is part of the code under test.",
 }
 
+PROPS["C04"] = {
+    "bounds": {"quick": "one lexer step from each of the four lexer states on a remaining input of exactly N bytes: all "
+                        "bytes symbolic for N = 0..4 (header), 0..2 (data), 1..3 / 1..2 (common-command states); with the "
+                        "first byte(s) fixed to one representative per lexical class: N up to 14 (12/13-character "
+                        "mnemonic, character data and suffix boundaries, #2 block header, strings, expressions)",
+               "thorough": "all bytes symbolic up to N = 6 (header) / 4 (data; 5 attempted); class instances up to N = 25 "
+                           "(64-bit overflow of #H/#Q literals, #9 block header, 10-byte block payloads)"},
+    "outside": "remaining inputs longer than the stated N; the composition of steps into a whole message (each step starts "
+               "from an ARBITRARY state, so every position of every message whose remaining length is within N is "
+               "covered, but sequences are not re-run end to end); where IEEE 488.2 or the property text does not decide "
+               "(control characters as white space, NL followed by further input, leading white space before a header, "
+               "a 12-character common command mnemonic, `*` in the data part, exponent/suffix ambiguity of `1E..`) the "
+               "reference says 'no requirement'",
+    "assumptions": ["the lexer state is exactly (remaining bytes, in_header, in_common): the harness installs an arbitrary "
+                    "remaining input through the public `chars` field after reaching the flag combination with a concrete "
+                    "prefix, and reads the flags back through concrete one-byte probes"],
+    "level_text": "Bounded model checking, differential: one step of the real Tokenizer (real lexical-core integer "
+                  "parsing inside) against a 350-line reference lexer step written from IEEE 488.2 section 7, from an "
+                  "arbitrary lexer state, with the remaining bytes symbolic; equality of element type, exact payload byte "
+                  "range (offset and length into the input), cursor, mode afterwards and non-decimal value, and a command "
+                  "error wherever the reference finds one of the listed syntax violations.",
+    "level_note": "Trusted: Kani/CBMC/CaDiCaL; the reference step in oracles/lexer.rs (unit-tested at setup); concrete "
+                  "length per instance; class-representative first bytes for the long instances (sanctioned by the "
+                  "property's own quantifier).",
+}
+
 # properties whose check is still being built (kept current as the work proceeds)
 NOT_YET = {}
